@@ -863,6 +863,12 @@ func scenarios() []Scenario {
 		// a preview that carries a key which has already taken effect is answered the recorded outcome, like any replay
 		{Name: "preview-under-a-used-key", Setup: []engx.Req{fund("alice", 100), ik(xfer(10, "alice", "bob"), "k31"), xfer(5, "alice", "bob")}, Budget: 60, Reqs: []engx.Req{
 			dry(ik(xfer(10, "alice", "bob"), "k31")), ik(xfer(10, "alice", "bob"), "k31")}},
+		// a transaction already reverted, reverted again under keys never seen before (forced, and with funds back on the account)
+		{Name: "revert-again-under-a-fresh-key", Setup: []engx.Req{fund("alice", 100), xfer(40, "alice", "bob"), engx.Req{Kind: "revert", RevertID: 1}, fund("bob", 100)}, Budget: 80, Reqs: []engx.Req{
+			ik(engx.Req{Kind: "revert", RevertID: 1, Force: true}, "k50"), ik(engx.Req{Kind: "revert", RevertID: 1}, "k51"), {Kind: "revert", RevertID: 1}}},
+		// a preview that is REFUSED (after it took its locks) and a real write on the same accounts afterwards
+		{Name: "refused-preview-then-real", Setup: []engx.Req{fund("alice", 100)}, Budget: 120, Reqs: []engx.Req{
+			dry(xfer(500, "alice", "bob")), xfer(50, "alice", "bob"), dry(engx.Req{Kind: "revert", RevertID: 7})}},
 		// three spenders of one balance: one holds the locks, two queue behind it (a release must grant them one by one)
 		{Name: "three-spenders", Setup: []engx.Req{fund("alice", 100)}, Budget: 400, Reqs: []engx.Req{
 			xfer(100, "alice", "bob"), xfer(100, "alice", "carol"), xfer(100, "alice", "dave")},
